@@ -28,6 +28,8 @@ CHECK = {
       T('probe5', 'base', 'keys=probe', 'vals=probe', 'nkeys=5'),
       T('intprobe5', 'base', 'keys=int', 'vals=probe', 'nkeys=5'), T('probeint4-asan', 'asan', 'keys=probe', 'vals=int', 'nkeys=4'),
       T('probe4-two', 'base', 'keys=probe', 'vals=probe', 'nkeys=4', 'two=1', 'depth=6'), T('str3-two-asan', 'asan', 'keys=str', 'nkeys=3', 'two=1', 'depth=5'),
+      # history feature in the state key: the largest slot count A went through (derived fields surviving an assign / shrink)
+      T('int3-two-hw', 'base', 'keys=int', 'nkeys=3', 'two=1', 'hwkey=1', 'depth=6'),
       T('int4-light', 'base', 'keys=int', 'nkeys=4', 'light=1'), T('str4-light', 'base', 'keys=str', 'nkeys=4', 'light=1', 'alias=0'),
       T('probe4-light-asan', 'asan', 'keys=probe', 'vals=probe', 'nkeys=4', 'light=1', 'alias=0'),
       T('ladder', 'base', 'mode=ladder', 'ladder_n=120'),
@@ -41,6 +43,7 @@ CHECK = {
       T('probe7', 'base', 'keys=probe', 'vals=probe', 'nkeys=7'),
       T('intprobe7', 'base', 'keys=int', 'vals=probe', 'nkeys=7'), T('probeint6-asan', 'asan', 'keys=probe', 'vals=int', 'nkeys=6'),
       T('probe4-two', 'base', 'keys=probe', 'vals=probe', 'nkeys=4', 'two=1', 'depth=9'), T('str4-two-asan', 'asan', 'keys=str', 'nkeys=4', 'two=1', 'depth=7'),
+      T('int4-two-hw', 'base', 'keys=int', 'nkeys=4', 'two=1', 'hwkey=1', 'depth=8'), T('probe3-two-hw-asan', 'asan', 'keys=probe', 'vals=probe', 'nkeys=3', 'two=1', 'hwkey=1', 'depth=7'),
       T('int5-light', 'base', 'keys=int', 'nkeys=5', 'light=1'), T('int6-light', 'base', 'keys=int', 'nkeys=6', 'light=1', 'alias=0', 'deadline=800'), T('str5-light', 'base', 'keys=str', 'nkeys=5', 'light=1', 'alias=0'),
       T('probe4-light-asan', 'asan', 'keys=probe', 'vals=probe', 'nkeys=4', 'light=1'),
       T('ladder', 'base', 'mode=ladder', 'ladder_n=220'),
